@@ -75,6 +75,7 @@ InitObs == [
     upin     |-> 0,         \* PIN bytes sent on behalf of an unlock
     keys     |-> {},        \* paths for which GET_PUBLIC_KEY was sent
     admin    |-> 0, exits |-> 0,
+    pineof   |-> FALSE,     \* a PIN prompt met the end of the operator's input
     nacks    |-> 0,         \* negative / failed device answers (echo excepted)
     linkx    |-> 0]         \* exchanges on which the link failed (no answer reached the host)
 
@@ -115,6 +116,7 @@ Observe(C, o0, e) ==
     ELSE IF e.cls = "echo" THEN [o EXCEPT !.echoed = e.ok]
     ELSE IF e.cls = "stdin" THEN
         [o EXCEPT !.yes = @ \/ e.ans = "yes", !.no = @ \/ e.ans = "no"]
+    ELSE IF e.cls = "getpass" THEN [o EXCEPT !.pineof = @ \/ e.ok = "f"]
     ELSE IF e.cls = "urandom" THEN [o EXCEPT !.draws = @ \cup {e.data}]
     ELSE IF e.cls = "seed_byte" THEN
         [o EXCEPT !.seedbuf = IF e.i < SeedLen THEN [@ EXCEPT ![e.i + 1] = e.b] ELSE @,
@@ -227,18 +229,21 @@ Fits(C) == \A k \in 1..Len(C.pins) : Len(C.pins[k]) <= 8
 Writable(C) == C.pre \notin {"dir", "dirjson"}
 Writes(C)   == C.outfile /\ (C.op = "pubkeys" \/ (C.op = "onboard" /\ C.plat = "ledger"))
 
+\* the link never failed and the operator's input did not end at a PIN prompt
+Intact(o) == o.linkx = 0 /\ ~o.pineof
+
 CarriedOnboard(C, o, out) ==
     LET pre == /\ Is(C.d0.mode, "boot") /\ Is(C.d0.onb, "no") /\ Is(C.d0.echo, "t")
                /\ SaysYes(C.answers) /\ OnbPinOK(C)
                /\ (C.plat = "ledger" => (C.outfile /\ Writable(C))) IN
     pre => /\ (o.nacks = 0) => (o.wipes = 1 /\ o.seed # <<>> /\ out = "ok")
-           /\ (C.acc.wipe = "t" /\ Fits(C) /\ o.linkx = 0)
+           /\ (C.acc.wipe = "t" /\ Fits(C) /\ Intact(o))
                  => (o.wipes = 1 /\ o.wipe_ok = "t" /\ o.nacks = 0 /\ out = "ok")
 
 CarriedUnlock(C, o, out) ==
     (UnlockPre(C) /\ UnlPinOK(C))
         => /\ (o.nacks = 0) => (o.unlocks = 1 /\ out = "ok")
-           /\ (C.acc.unlock = "t" /\ Fits(C) /\ o.linkx = 0)
+           /\ (C.acc.unlock = "t" /\ Fits(C) /\ Intact(o))
                  => (o.unlocks = 1 /\ o.unlock_ok = "t" /\ out = "ok")
 
 CarriedChangepin(C, o, out) ==
@@ -246,12 +251,12 @@ CarriedChangepin(C, o, out) ==
     THEN (NewPinOK(C) /\ Is(C.d0.onb, "yes")
             /\ Is(C.d0.mode, IF C.plat = "ledger" THEN "boot" ELSE "signer"))
             => /\ (o.nacks = 0) => (o.changes = 1 /\ out = "ok")
-               /\ (C.acc.newpin = "t" /\ Fits(C) /\ o.linkx = 0)
+               /\ (C.acc.newpin = "t" /\ Fits(C) /\ Intact(o))
                      => (o.changes = 1 /\ o.change_ok = "t" /\ out = "ok")
     ELSE (NewPinOK(C) /\ UnlockPre(C) /\ Policy(C.upin))
             => /\ (o.nacks = 0) => (o.unlocks = 1 /\ o.changes = 1 /\ out = "ok")
-               /\ (C.acc.unlock = "t" /\ o.linkx = 0) => (o.unlocks = 1 /\ o.unlock_ok = "t")
-               /\ (C.acc.unlock = "t" /\ C.acc.newpin = "t" /\ Fits(C) /\ o.linkx = 0)
+               /\ (C.acc.unlock = "t" /\ Intact(o)) => (o.unlocks = 1 /\ o.unlock_ok = "t")
+               /\ (C.acc.unlock = "t" /\ C.acc.newpin = "t" /\ Fits(C) /\ Intact(o))
                      => (o.changes = 1 /\ o.change_ok = "t" /\ out = "ok")
 
 CarriedPubkeys(C, o, out) ==
@@ -260,7 +265,7 @@ CarriedPubkeys(C, o, out) ==
             => (DocPaths \subseteq o.keys /\ ((Writes(C) => Writable(C)) => out = "ok"))
     ELSE (UnlockPre(C) /\ UnlPinOK(C))
             => /\ (o.nacks = 0) => (o.unlocks = 1)
-               /\ (C.acc.unlock = "t" /\ Fits(C) /\ o.linkx = 0) => (o.unlocks = 1 /\ o.unlock_ok = "t")
+               /\ (C.acc.unlock = "t" /\ Fits(C) /\ Intact(o)) => (o.unlocks = 1 /\ o.unlock_ok = "t")
                /\ (o.nacks = 0 /\ o.modeq = "signer")
                      => (DocPaths \subseteq o.keys /\ ((Writes(C) => Writable(C)) => out = "ok"))
 
@@ -288,7 +293,10 @@ PubkeysWrittenP(C, out, files, expect) ==
         /\ Len(files.json) = Cardinality(DocPaths)
         /\ Range(files.json) = {<<x.path, x.u>> : x \in Range(expect)}
 
-WriteErrorP(C, out) == (Writes(C) /\ ~Writable(C)) => out = "err"
+\* an operation that cannot get the PIN it asks for (end of input at the prompt) reports an error
+InputErrorP(o, out) == o.pineof => out = "err"
+
+WriteErrorP(C, out) == (Writes(C) /\ ~Writable(C)) => out # "ok"
 
 \* what TraceAdmin re-evaluates after every event
 StepClauses(o) == <<
